@@ -7,6 +7,7 @@ from .c04 import mat, fmat, impl_cons, impl_verdict, scalar, np
 
 TOL = 1e-9
 CLASSES = G.MF_CLASSES + ['SDevice']
+SOLVE_CLASSES = ['Device', 'PVDevice', 'CDevice', 'CDevice2', 'IDevice', 'IDevice2', 'GDevice']
 
 
 def close(a, b, tol=TOL):
@@ -45,7 +46,7 @@ class C17(Prop):
               'DK.C17.mf_feasible_iff', 'DK.C17.conduit_direction', 'DK.C17.mf_surjective', 'DK.C17.mf_ratio_surjective',
               'DK.C17.mf_pairs_eq', 'DK.C17.mf_cost_image_eq', 'DK.C17.mf_min_eq', 'DK.C17.mf_argmin', 'DK.C04.mf_cons_sat_iff']
   rule = ('adaptor over every one-directional atomic class (consumers and producers; Device, PVDevice, CDevice, CDevice2, IDevice, IDevice2, '
-          'GDevice, TDevice, ADevice with user constraints, charge-only / discharge-only SDevice), with and without cumulative bounds x 1-4 '
+          'GDevice, TDevice, ADevice with user constraints, charge-only / discharge-only SDevice), with and without cumulative bounds x 1-7 '
           'conduits (two-ratio sets when 2) x horizon n = 1,2,3,.. (8 quick, 31 thorough) x conduit matrices: split of a wrapped-feasible flow, '
           'equal split, in conduit box, one entry with the wrong direction / beyond a bound, arbitrary x scalar / per-slot / per-conduit prices; '
           'WindowDevice wrapped in 8 % of the cases, oracle only (not modelled); a re-read family: adaptor.constraints, assign device.cbounds, adaptor.constraints again; '
@@ -53,6 +54,7 @@ class C17(Prop):
   sizes = {'quick': 260, 'thorough': 2200}
   assumptions = ['the wrapped device is one-directional (the constructor raises otherwise); k >= 1 conduits',
                  'glue variants (oracle): Fortran-ordered / strided / integer-typed conduit matrices (integer dtype only where the wrapped device itself is dtype-insensitive at the total flow), (1,n) row prices, Fortran-ordered price matrices, for cost / deriv / hess (closed-form classes) / constraint values / constraint Jacobians; caller arrays unchanged; hess(S) = wrapped hess at the total flow',
+                 'a handful of real solves per run (6 % of the cases, smooth convex wrapped classes, ftol 1e-10, vk/scipy_guard.safe_to_solve): minimum cost of the adaptor = minimum cost of the wrapped device at the same per-slot price within 1e-5; an OptimizationException of either side, or a gap that is only an early stop of the optimiser, is not reported (C05)',
                  'projection: the oracle requires shape, conduit bounds and slot totals = wrapped projection of the totals (not an equal split)',
                  'oracle tolerances: 1e-9 relative on costs / marginal costs, 1e-9 absolute slack on membership (1e-7 for the equal split, which divides by k)']
 
@@ -69,14 +71,15 @@ class C17(Prop):
       if window:
         t = gen_window_mf(rng, tier, n)
       else:
-        t = G.gen_mf(rng, tier, n, 'm1', kmax=4, classes=CLASSES, p_ratio=0.25)
+        t = G.gen_mf(rng, tier, n, 'm1', kmax=7, classes=CLASSES, p_ratio=0.25)
       d = t['dev']; k = len(t['flows'])
       lbx, hbx = gen.tree_box(t, n)
       x = G.wrapped_flow(rng, d, n)
       mats = []
       if t.get('ratios'):
         r0, r1 = Fraction(t['ratios'][0]), Fraction(t['ratios'][1])
-        v = [Fraction(round(xi/(r0 + r1)*8), 8) for xi in x]
+        den = (r0 + r1) if r0 + r1 != 0 else Fraction(1)
+        v = [Fraction(round(xi/den*8), 8) for xi in x]
         mats.append([[vi*r1 for vi in v], [vi*r0 for vi in v]])
         if t.get('ctype') == 'ineq':                 # both sides of the ratio half-space
           dlt = C.dy(rng, 0, 1) + Fraction(1, 4)
@@ -106,7 +109,7 @@ class C17(Prop):
                     else Fraction(round(lbx[r*n + i])) for i in range(n)] for r in range(k)])
       out.append({'tree': t, 'n': n, 'probes': [[[C.fs(v) for v in row] for row in M] for M in mats],
                   'P': gen.gen_price_mat(rng, k, n), 'x': [C.fs(v) for v in x], '_flat': rng.random() < 0.5,
-                  'oracle_only': window, 'reread': rng.randrange(3)})
+                  'oracle_only': window, 'reread': rng.randrange(3), 'solve': rng.random() < 0.06})
     return out
 
   # ------------------------------------------------------------ T2
@@ -120,16 +123,21 @@ class C17(Prop):
     h['producer'] += 1 if any(Fraction(v) < 0 for v in d['lb']) else 0
     if case.get('oracle_only'):
       return []                       # WindowDevice has no model: oracle only
-    obj = build.build_tree(t)
+    obj = make_adaptor(build_wrapped(d, t['id']), t)
     p = build.price(case['P'])
     ops = [Op({'op': 'tree.rows', 'tree': t, 'n': n}, lambda: obj.shape[0], TOL, 'rows'),
            Op({'op': 'tree.bounds', 'tree': t, 'n': n}, lambda: obj.bounds, TOL, 'conduit bounds')]
-    for P in case['probes']:
+    # the exact-rational thermal / storage models recompute the whole chain per (conduit, slot): keep their share of the run small
+    heavy = d['cls'] in ('TDevice', 'SDevice')      # O(n^2) recurrences per entry, exact rationals
+    big_thermal = heavy and n > 12
+    t2_probes = case['probes'][:2] if (heavy and (k*n > 24 or n > 12)) else case['probes']
+    for P in t2_probes:
       S = mat(P)
       Sx = S.reshape(-1) if case.get('_flat') else S
       ops.append(Op({'op': 'tree.cost', 'tree': t, 'n': n, 'S': P, 'P': case['P']}, (lambda Sx=Sx: obj.cost(Sx, p)), TOL, 'cost (absolute)'))
       ops.append(Op({'op': 'tree.cost', 'tree': t, 'n': n, 'S': P, 'P': '0'}, (lambda Sx=Sx: obj.cost(Sx, 0)), TOL, 'cost at zero price'))
-      ops.append(Op({'op': 'tree.deriv', 'tree': t, 'n': n, 'S': P, 'P': case['P']}, (lambda Sx=Sx: obj.deriv(Sx, p)), TOL, 'marginal cost'))
+      if not big_thermal:      # (the oracle still compares the marginal cost with the wrapped device's at every horizon)
+        ops.append(Op({'op': 'tree.deriv', 'tree': t, 'n': n, 'S': P, 'P': case['P']}, (lambda Sx=Sx: obj.deriv(Sx, p)), TOL, 'marginal cost'))
       ops.append(Op({'op': 'sets.cons', 'tree': t, 'n': n, 'S': P}, (lambda Sx=Sx: impl_cons(obj, Sx)), TOL, 'constraints as a multiset of (type, value)'))
     return ops
 
@@ -230,6 +238,8 @@ class C17(Prop):
       if fails:
         return fails
       fails += self.reread(case, who, ratio_ok)
+      if not fails and case.get('solve'):
+        fails += self.solve_check(case, who)
     except Exception as e:
       import traceback
       fails.append({'key': {'cls': cls, 'kind': 'raised', 'exc': type(e).__name__}, 'detail': '%s: %s: %s | %s' % (who, type(e).__name__, str(e)[:200], traceback.format_exc()[-300:])})
@@ -296,6 +306,53 @@ class C17(Prop):
       return {'key': {'cls': cls, 'kind': 'mutates-input'}, 'detail': '%s: the caller\'s flow / price array was modified, S=%s' % (who, json.dumps(P))}
     return None
 
+  def solve_check(self, case, who):
+    """a real solve of the adaptor and of the wrapped device at the same per-slot price: same minimum cost (1e-5).
+    A gap that is only the optimiser stopping early on one side (both optima transfer to the other side at their own
+    cost) is counted, not reported: C05 owns the optimiser."""
+    n_ = np()
+    t, n = case['tree'], case['n']
+    d = t['dev']; k = len(t['flows']); cls = d['cls']
+    if cls not in SOLVE_CLASSES or t.get('ratios'):
+      return []
+    from device_kit.solve import solve, OptimizationException
+    from .. import scipy_guard as SG
+    pv = n_.asarray(build.price(case['P']), dtype=float)
+    pv = n_.full(n, float(pv)) if pv.ndim == 0 else (pv[0] if pv.ndim == 2 else pv)
+    dev = build_wrapped(d, t['id']); obj = make_adaptor(build_wrapped(d, t['id']), t)
+    if not (SG.safe_to_solve(dev) and SG.safe_to_solve(obj)):
+      return []
+    opts = {'ftol': 1e-10, 'maxiter': 2000}
+    try:
+      sw, _ = solve(dev, pv, solver_options=opts)
+    except OptimizationException:
+      return []
+    try:
+      sa, _ = solve(obj, pv, solver_options=opts)
+    except OptimizationException:
+      return []
+    except Exception as e:
+      return [{'key': {'cls': cls, 'kind': 'solve-raised', 'exc': type(e).__name__},
+               'detail': '%s: solve(adaptor, p=%s) raised %s: %s while solve(wrapped device) succeeds' % (who, pv.tolist(), type(e).__name__, str(e)[:160])}]
+    self.hist['solves'] = self.hist.get('solves', 0) + 1
+    sw = n_.asarray(sw, dtype=float).reshape(-1); sa = n_.asarray(sa, dtype=float).reshape(k, n)
+    cw, ca = scalar(dev.cost(sw, pv)), scalar(obj.cost(sa, pv))
+    if abs(ca - cw) <= 1e-5*max(1.0, abs(cw)):
+      self.hist['solves_agree'] = self.hist.get('solves_agree', 0) + 1
+      return []
+    # transfer each optimum to the other side
+    cs = sa.sum(axis=0); E = n_.tile(sw/k, (k, 1))
+    ta, tw = scalar(dev.cost(cs, pv)), scalar(obj.cost(E, pv))
+    cs_ok = in_box(dev.bounds, cs, 1e-6) and impl_verdict_tol(dev.constraints, cs, 1e-6)[0]
+    E_ok = in_box(obj.bounds, E, 1e-6) and impl_verdict_tol(obj.constraints, E, 1e-6)[0]
+    if cs_ok and E_ok and close(ta, ca, 1e-7) and close(tw, cw, 1e-7):
+      self.hist['solver_gap_only'] = self.hist.get('solver_gap_only', 0) + 1
+      return []
+    return [{'key': {'cls': cls, 'kind': 'solve-min-cost'},
+             'detail': ('%s: at per-slot price %s the adaptor solves to cost %.8g (flows %s) and the wrapped device to %.8g (flow %s); the adaptor optimum\'s total is %s for '
+                        'the wrapped device at cost %.8g, the equal split of the wrapped optimum is %s for the adaptor at cost %.8g') % (
+                          who, pv.tolist(), ca, sa.tolist(), cw, sw.tolist(), 'feasible' if cs_ok else 'INFEASIBLE', ta, 'feasible' if E_ok else 'INFEASIBLE', tw)}]
+
   def reread(self, case, who, ratio_ok):
     """read adaptor.constraints, re-assign the wrapped device's cumulative bounds through its setter, read again: the adaptor
     must follow the wrapped device's CURRENT constraints (a pure re-expression keeps no copy of them)."""
@@ -353,7 +410,7 @@ def build_wrapped(d, ident):
 def make_adaptor(dev, t):
   dk = C.repo()
   if t.get('ratios'):
-    return dk.TwoRatioMFDeviceSet(dev, list(t['flows']), [C.pf(x) for x in t['ratios']], t.get('ctype', 'eq'))
+    return dk.TwoRatioMFDeviceSet(dev, list(t['flows']), G.py_ratios(t), t.get('ctype', 'eq'))
   return dk.MFDeviceSet(dev, list(t['flows']))
 
 
@@ -370,10 +427,10 @@ def gen_window_mf(rng, tier, n):
     cbs, form = gen.gen_cbounds(rng, n, lb, hb)
     d['cbs'] = [[C.fs(c[0]), C.fs(c[1]), c[2], c[3]] for c in cbs]
     d['_py']['cform'] = '4tuples'
-  k = rng.randint(1, 4)
+  k = rng.randint(1, 6)
   t = {'k': 'mf', 'id': 'w1', 'dev': d, 'flows': G.FLOW_NAMES[:k], 'ratios': None}
   if k == 2 and rng.random() < 0.25:
-    t['ratios'] = [C.fs(C.dy(rng, 1, 3)), C.fs(C.dy(rng, 1, 3))]; t['ctype'] = rng.choice(['eq', 'ineq'])
+    G.set_ratios(rng, t)
   return t
 
 
